@@ -77,3 +77,31 @@ Fixpoint subset (a b : list bytes) : bool :=
 Definition c17_list_check (existing listed : list bytes) : list bytes :=
   expect (subset listed existing) "lists-a-bucket-never-created" ++
   expect (subset existing listed) "created-bucket-not-listed".
+
+(* C12 (direct decoder) ------------------------------------------------------ *)
+From GF Require Import Model.Chunk.
+
+Definition mk_reader (stream : bytes) (sched : list Z) (eofw : bool) : reader :=
+  {| rd_buf := stream; rd_sched := sched; rd_eof_with_data := eofw |}.
+
+(* consumer = ReadAll(reader, size): impl_ok, impl_bytes *)
+Definition c12_readall_model (stream : bytes) (sched : list Z) (eofw : bool) (size : Z)
+    (impl_ok : bool) (impl_bytes : bytes) : list bytes :=
+  match decode_readall (mk_reader stream sched eofw) size with
+  | DOk p => expect impl_ok "accepted" ++ expect (beq p impl_bytes) "decoded-bytes"
+  | _ => expect (negb impl_ok) "rejected"
+  end.
+
+(* spec: the stream is encode(chunks) of [payload]; accepted iff declared size = |payload|,
+   and then the bytes are the payload *)
+Definition c12_readall_spec (payload : bytes) (size : Z) (impl_ok : bool) (impl_bytes : bytes) : list bytes :=
+  if size =? blen payload
+  then expect impl_ok "well-formed-stream-rejected" ++ expect (beq impl_bytes payload) "decoded-differs-from-payload"
+  else expect (negb impl_ok) "wrong-declared-length-accepted".
+
+Definition c12_copy_model (stream : bytes) (sched : list Z) (eofw : bool) (bufsz : Z) (impl_bytes : bytes)
+  : list bytes :=
+  expect (beq (decode_copy (mk_reader stream sched eofw) bufsz) impl_bytes) "decoded-bytes".
+
+Definition c12_copy_spec (payload : bytes) (impl_bytes : bytes) : list bytes :=
+  expect (beq impl_bytes payload) "decoded-differs-from-payload".
